@@ -1237,6 +1237,10 @@ class HSM2Dongle:
                 # Step 2.3.1. Send brother list metadata
                 brother_list = brothers[block_number-1]
                 brother_count = len(brother_list)
+                if brother_count > 0xff:
+                    self.logger.error("%s: too many brothers (%d)",
+                                      operation_name.capitalize(), brother_count)
+                    return (False, responses.ERROR_INVALID_BROTHERS)
                 brother_count_bytes = brother_count.to_bytes(1,
                                                              byteorder="big",
                                                              signed=False)
